@@ -494,12 +494,21 @@ fn c18_num_case<F: Fl>(rng: &mut Rng, acc: &mut Acc) {
         let mut w: Vec<F> = (0..shape[axis]).map(|_| F::of(*rng.pick(&[1.0, 2.0, -0.5, 0.0, 3.0, -1.0, 0.25]))).collect();
         let j = rng.below(shape[axis]);
         w[j] = F::of(16.0); // keeps the total positive
+        let ddof_v = *rng.pick(&[0.0, 1.0, 0.5]);
+        if rng.chance(0.15) {
+            // a single effective observation: every weight zero but one, which may equal ddof (0/0 in both forms)
+            for x in w.iter_mut() {
+                *x = F::of(0.0);
+            }
+            w[j] = F::of(*rng.pick(&[1.0, 0.5, 2.0, ddof_v, ddof_v]));
+            acc.count("weights_single_effective_observation");
+        }
         let (ld, lw1) = (rlay(rng, nd), rlay(rng, 1));
         let ed = Embedded::new(&shape, &data, ld.clone());
         let ew = Embedded::new(&[shape[axis]], &w, lw1.clone());
         let v = ed.view();
         let w1 = ew.view().into_dimensionality::<Ix1>().unwrap();
-        let ddof = F::of(*rng.pick(&[0.0, 1.0, 0.5]));
+        let ddof = F::of(ddof_v);
         let rs = catch(|| v.weighted_sum_axis(Axis(axis), &w1));
         let rv = catch(|| v.weighted_var_axis(Axis(axis), &w1, ddof));
         let rd = catch(|| v.weighted_std_axis(Axis(axis), &w1, ddof));
